@@ -476,22 +476,10 @@ Definition h_unsub (chan : bool) (s : server) (c : Z) (parts : list frame)
       end
   end.
 
-(** Closing connections (QUIT, protocol error): cleanup_connections removes them at the end of
-    the loop iteration - unless they still have subscriptions (server.rs cleanup_connections
-    skips them: class closing-leak; they stay fully served).  [reap] = that pass for one id. *)
-Definition set_closing (cn : conn) : conn :=
-  {| c_db := c_db cn; c_auth := c_auth cn; c_intx := c_intx cn; c_queue := c_queue cn;
-     c_watched := c_watched cn; c_closing := true |}.
-Definition reap (s : server) (c : Z) : server :=
-  match zlookup c (s_conns s) with
-  | Some cn => if c_closing cn && negb (is_subscribed (s_pubsub s) c) then del_conn s c else s
-  | None => s
-  end.
-Definition close_conn (s : server) (c : Z) : server :=
-  match zlookup c (s_conns s) with
-  | Some cn => reap (set_conn s c (set_closing cn)) c
-  | None => s
-  end.
+(** Closing connections (QUIT, protocol error, EOF read from the client): cleanup_connections
+    removes them at the end of the same loop iteration, together with their subscriptions
+    (after the repair 4bdfa3e it no longer skips connections that are still subscribed) *)
+Definition close_conn (s : server) (c : Z) : server := del_conn s c.
 
 (** process_frame with the pub/sub commands: (frames written directly into connection buffers,
     in order; the frame returned to the connection loop; state) *)
@@ -510,9 +498,9 @@ Definition process_frame_x (now : Z) (s : server) (c : Z) (req : frame) (oracle 
           else if beq command (bs "SUBSCRIBE") then h_sub true s c parts
           else if beq command (bs "PSUBSCRIBE") then h_sub false s c parts
           else if beq command (bs "UNSUBSCRIBE") then
-            match h_unsub true s c parts with (d, r, s') => (d, r, reap s' c) end
+            h_unsub true s c parts
           else if beq command (bs "PUNSUBSCRIBE") then
-            match h_unsub false s c parts with (d, r, s') => (d, r, reap s' c) end
+            h_unsub false s c parts
           else other
       end
   | _ => other
